@@ -74,7 +74,7 @@ type Menu struct {
 }
 
 type Shared struct {
-	S     [3]tensor.Tensor
+	S     [4]tensor.Tensor
 	Layer *layers.FC // a layer object shared by all goroutines
 	Soft  *activations.Softmax
 }
@@ -140,7 +140,9 @@ func NewShared() *Shared {
 	// the third shared tensor is the RESULT of an operation on untracked operands, and nothing has looked at it yet
 	// (not even its gradient context) when the goroutines start
 	s3, _ := s2.Sub(s2.Scale(0.5))
-	return &Shared{S: [3]tensor.Tensor{s1, s2, s3}, Layer: fc, Soft: soft}
+	// the fourth one is the result of a COMPARISON, equally untouched
+	s4, _ := s2.Gt(s2.Scale(2))
+	return &Shared{S: [4]tensor.Tensor{s1, s2, s3, s4}, Layer: fc, Soft: soft}
 }
 
 func resolve(sh *Shared, local []tensor.Tensor, slot [2]any) tensor.Tensor {
